@@ -13,6 +13,12 @@
 (***************************************************************************)
 EXTENDS SpectrumOps
 
+\* History independence.  Every function of the likelihood layer (ll, ll_per_bin, ll_multinom, optimal_sfs_scaling,
+\* optimally_scaled_sfs, the two residuals) is a function of the abstract value of its two operands - all operators
+\* below are - and is an observer: after the call both operands hold the value they held before it (entries, mask,
+\* folded flag, labels).  Hence any later call on the same two objects sees the same operands, whatever was called before.
+OperandsUnchanged(mo, da, moAfter, daAfter) == moAfter = mo /\ daAfter = da
+
 \* A model is folded automatically against folded data.
 EffModel(mo, da) == IF da.f /\ ~mo.f THEN Fold(mo) ELSE mo
 
